@@ -520,7 +520,37 @@ func (u *Unit) verifyRoot() {
 			names[k] = v
 		}
 		if ct != nil {
-			for _, c := range ct.Ensures {
+			// ghost assignments: `ensures G == EXPR` for a ghost variable G listed in modifies is the specification-only
+			// statement `G = EXPR` executed at the return (ghost code; EXPR is evaluated in the state at the return)
+			ghostAssigned := map[int]bool{}
+			if u.implOf == "" {
+				listed := map[string]bool{}
+				for _, g := range ghostModifies(ct.Modifies) {
+					listed[g] = true
+				}
+				for ci, c := range ct.Ensures {
+					if c.E == nil || c.E.Op != "bin" || c.E.Name != "==" || len(c.E.Args) != 2 || c.E.Args[0].Op != "id" || !listed[c.E.Args[0].Name] {
+						continue
+					}
+					g := c.E.Args[0].Name
+					cur, ok := ex.st.ghost[g]
+					if !ok {
+						continue
+					}
+					ctx := fr.newEvalCtx(ex.st, fr.entry, names)
+					v, err := ctx.eval(c.E.Args[1])
+					if err != nil || v.t.Sort != cur.Sort {
+						continue
+					}
+					ex.st.ghost[g] = u.define("gset!"+g, v.t)
+					ghostAssigned[ci] = true
+					u.note("ghost assignment at return of %s: %s", u.rootKey, c.Text)
+				}
+			}
+			for ci, c := range ct.Ensures {
+				if ghostAssigned[ci] {
+					continue
+				}
 				if u.implOf != "" && u.mentionsGhost(c.E) {
 					continue // ghost protocol clauses define the meaning of the interface's ghost state; not an obligation of implementations
 				}
@@ -589,6 +619,12 @@ func (fr *Frame) checkFrame(ct *Contract, end *State, names map[string]tval) {
 		}
 	}
 	if end.epoch != fr.entry.epoch {
+		if u.implOf != "" && len(ct.Callbacks) > 0 {
+			// an implementation of an interface method that takes a callback: the callback's effects are attributed to
+			// the caller (callback loop at the call sites); the method's own footprint is checked against its own contract
+			u.note("frame of %s against %s not checked: effects of the callback parameter", u.rootKey, u.implOf)
+			return
+		}
 		u.oblige(fr, "frame", fr.fn.Pos(), "calls with unknown effects, but the contract has no 'modifies *'", end.pc, False, false)
 		return
 	}
